@@ -595,8 +595,15 @@ fn one_history(u: &mut Universe, r: &mut Rng, out: &mut Out, cnt: &mut Counts, m
             } else {
                 *r.pick(&[0u64, 1, 5, 1_000_000_000, u64::MAX / 4])
             };
-            seg = vec![3, age as i128];
-            match no_panic(|| pool.evict_older_than(Duration::from_nanos(age))) {
+            // cutoffs beyond what fits in nanoseconds-as-u64 ("never expire" values): Duration::MAX and the values around
+            // i64::MAX seconds, where `Instant - Duration` stops being representable on this platform
+            let max_age: Duration = if r.chance(1, 6) {
+                *r.pick(&[Duration::MAX, Duration::from_secs(u64::MAX), Duration::from_secs(i64::MAX as u64), Duration::from_secs(i64::MAX as u64 + 1), Duration::from_secs(u64::MAX / 2 - 1_000_000)])
+            } else {
+                Duration::from_nanos(age)
+            };
+            seg = vec![3, max_age.as_nanos() as i128];
+            match no_panic(|| pool.evict_older_than(max_age)) {
                 None => panicked = true,
                 Some(c) => {
                     o.push(c as i128);
